@@ -61,7 +61,7 @@ pub struct Config {
     pub(crate) event_tx: Sender<InnerNotificationEvent>,
 
     /// TX channel for sending notifications from the connection handlers.
-    pub(crate) notif_tx: Sender<(PeerId, BytesMut)>,
+    pub(crate) notif_tx: Sender<(PeerId, usize, BytesMut)>,
 
     /// RX channel passed to the protocol used for receiving commands.
     pub(crate) command_rx: Receiver<NotificationCommand>,
